@@ -13,7 +13,8 @@ PY = os.environ.get("PYVC_REPLAY_PYTHON", "/venv/bin/python")
 DRIVERS: dict[str, list[list[str]]] = {
     "C01": [["drivers/streams.py", "--mode", "roundtrip", "--max-len", "5"], ["drivers/streams.py", "--mode", "directed"], ["drivers/streams.py", "--max-len", "5"]],
     "C02": [["drivers/streams.py", "--mode", "directed"], ["drivers/streams.py", "--max-len", "5"]],
-    "C03": [["drivers/endpoints.py", "--max-len", "5", "--faults"]],
+    "C03": [["drivers/endpoints.py", "--max-len", "5", "--faults"], ["drivers/endpoints.py", "--max-len", "4", "--asynchronous"]],
+    "C10": [["drivers/endpoints.py", "--max-len", "4", "--asynchronous"], ["drivers/endpoints.py", "--max-len", "5", "--faults"]],
     "C04": [["drivers/sendpaths.py"]],
     "C06": [["drivers/streams.py", "--max-len", "5"], ["drivers/streams.py", "--mode", "directed"]],
     "C07": [["drivers/streams.py", "--mode", "bound"], ["drivers/streams.py", "--mode", "directed"], ["drivers/streams.py", "--max-len", "5"]],
